@@ -421,7 +421,7 @@ func (ob *Obligation) scriptPlain(opt scriptOpt) string {
 		}
 	}
 	// small queries are sent whole: slicing only pays off on large functions
-	if os.Getenv("GOCV_NOSLICE") != "" || nAssume <= 150 {
+	if os.Getenv("GOCV_NOSLICE") != "" || nAssume <= sliceMin() {
 		for i := 0; i < ob.Index; i++ {
 			if vc.Items[i].Kind == itAssume && !keep[i] {
 				keep[i] = true
@@ -529,6 +529,46 @@ func (ob *Obligation) scriptPlain(opt scriptOpt) string {
 			}
 		}
 	}
+	// unfolding hints: for every application f(t) of a recursive spec function in the goal,
+	// the definition instantiated at t is stated explicitly (redundant with define-fun-rec,
+	// but solvers find it far more quickly than by unfolding on their own)
+	{
+		recs := map[string]*Item{}
+		for i := 0; i < ob.Index; i++ {
+			if vc.Items[i].Kind == itDefRec && keep[i] {
+				recs[vc.Items[i].Name] = &vc.Items[i]
+			}
+		}
+		if len(recs) > 0 {
+			seen := map[string]bool{}
+			var apps []*Term
+			var walk func(t *Term, inQ bool)
+			walk = func(t *Term, inQ bool) {
+				if t.Op == "forall" || t.Op == "exists" {
+					inQ = true
+				}
+				if it := recs[t.Op]; it != nil && !inQ && len(t.Args) == len(it.Params) && !seen[t.Key()] {
+					seen[t.Key()] = true
+					apps = append(apps, t)
+				}
+				for _, a := range t.Args {
+					walk(a, inQ)
+				}
+			}
+			walk(ob.Goal, false)
+			for n, a := range apps {
+				if n >= 6 {
+					break
+				}
+				it := recs[a.Op]
+				sub := map[string]*Term{}
+				for k, p := range it.Params {
+					sub[p.Name] = a.Args[k]
+				}
+				fmt.Fprintf(&sb, "(assert (= %s %s))\n", a, substSyms(it.Term, sub))
+			}
+		}
+	}
 	if ob.Excuse != nil {
 		body := sp.print(ob.Excuse, &sb)
 		fmt.Fprintf(&sb, "(assert (not %s))\n", body)
@@ -567,4 +607,42 @@ func (vc *VC) ObligeIdentities(kind, label string, pos string) {
 		ob.AbstractDiv = true
 		ob.cached = ob.scriptNL(scriptOpt{Models: true})
 	}
+}
+
+// sliceMin: VCs with more assumptions than this are sliced to the cone of influence of the goal.
+func sliceMin() int {
+	n := 150
+	if s := os.Getenv("GOCV_SLICE_MIN"); s != "" {
+		fmt.Sscan(s, &n)
+	}
+	return n
+}
+
+// substSyms replaces symbols by terms (no capture issues: recursive spec bodies have no binders
+// over their parameters).
+func substSyms(t *Term, sub map[string]*Term) *Term {
+	if t.Op == "sym" {
+		if r, ok := sub[t.Name]; ok {
+			return r
+		}
+		return t
+	}
+	if len(t.Args) == 0 {
+		return t
+	}
+	changed := false
+	args := make([]*Term, len(t.Args))
+	for i, a := range t.Args {
+		args[i] = substSyms(a, sub)
+		if args[i] != a {
+			changed = true
+		}
+	}
+	if !changed {
+		return t
+	}
+	n := *t
+	n.Args = args
+	n.key = ""
+	return &n
 }
